@@ -408,12 +408,13 @@ class MeiParser(object):
                 None if el.get("dur.ppq") is None else int(el.get("dur.ppq"))
             )
 
-        if any([dppq is not None for dppq in durs_ppq]):
-            # there is at least one element with both dur and dur.ppq
+        if any(durs_ppq):
+            # there is at least one element with both dur and a dur.ppq that
+            # says something (grace notes carry dur.ppq="0")
             # (its dur.ppq is its notated length, dots and tuplet ratio
             # included, in pulses)
             for dur_q, dppq in zip(quarters, durs_ppq):
-                if dppq is not None:
+                if dppq:
                     ppq = dppq / dur_q
                     # (divisions are integers)
                     return int(ppq) if ppq == int(ppq) else float(ppq)
